@@ -154,10 +154,10 @@ fn has_kind(e: &Value, k: &str) -> bool {
 
 // ---------------------------------------------------------------- DOT parsing
 
-struct St {
-    edges: Vec<(u8, usize)>,
-    eps: Vec<usize>,
-    tag: Option<u64>,
+pub struct St<T = u64> {
+    pub edges: Vec<(u8, usize)>,
+    pub eps: Vec<usize>,
+    pub tag: Option<T>,
 }
 
 fn unescape(s: &str) -> Option<u8> {
@@ -178,10 +178,24 @@ fn unescape(s: &str) -> Option<u8> {
     }
 }
 
-/// (stop, states with dense ids in order) parsed from `format!("{:?}", nfa)`
+/// (stop, states with dense ids in order) parsed from `format!("{:?}", nfa)`, numeric tags
 fn parse_dot(dot: &str) -> Option<(usize, Vec<St>)> {
+    let (stop, states) = parse_dot_text(dot)?;
+    let mut out = vec![];
+    for s in states {
+        let tag = match s.tag {
+            None => None,
+            Some(t) => Some(t.parse::<u64>().ok()?),
+        };
+        out.push(St { edges: s.edges, eps: s.eps, tag });
+    }
+    Some((stop, out))
+}
+
+/// the same with the tag as the text between the braces of the label
+pub fn parse_dot_text(dot: &str) -> Option<(usize, Vec<St<String>>)> {
     let mut stop = None;
-    let mut states: Vec<St> = vec![];
+    let mut states: Vec<St<String>> = vec![];
     for line in dot.lines() {
         let l = line.trim();
         if l.is_empty() || l.starts_with("digraph") || l.starts_with("rankdir") || l == "}" {
@@ -223,7 +237,7 @@ fn parse_dot(dot: &str) -> Option<(usize, Vec<St>)> {
                 Some(p) => {
                     let body = attr[p + 8..].strip_suffix("\"]")?;
                     let body = body.strip_prefix(&format!("{} {{", id))?.strip_suffix('}')?;
-                    Some(body.parse::<u64>().ok()?)
+                    Some(body.to_string())
                 }
             };
             states.push(St { edges: vec![], eps: vec![], tag });
